@@ -51,8 +51,9 @@ class Cfg:
         return {k: getattr(self, k) for k in self.__slots__}
 
 
-def draw_cfg(ch, logging_only=False, async_only=False, all_suspend=False):
+def draw_cfg(ch, logging_only=False, async_only=False, all_suspend=False, odd_items=True):
     cfg = Cfg()
+    cfg.odd_items = odd_items
     palette = ch.draw(4)
     if async_only:
         cfg.src_flavours = ASYNC_FLAVOURS if not palette else (ASYNC_FLAVOURS[palette - 1],)
@@ -626,7 +627,7 @@ class AggBase:
 
 def _odd_items(g, items):
     """Occasionally make the stdlib raise: an unorderable item somewhere"""
-    if items and g.ch.chance(1, 10):
+    if items and g.cfg.odd_items and g.ch.chance(1, 10):
         g.uid += 1
         items[g.ch.draw(len(items))] = Unorderable(g.uid)
     return items
@@ -669,7 +670,7 @@ class _Sum(AggBase):
             items = g.items(n)
             start = (ABSENT, 0, 3)[g.ch.draw(3)] if not g.ch.chance(1, 4) else g.item()
         elif mode == 1:  # mixed numerics
-            pool = (1, 2.5, True, 0, -3, 1e16, 0.1, False, -0.0)
+            pool = (1, 2.5, True, 0, -3, 0.5, 4.25, False, -0.0)
             items = [pool[g.ch.draw(len(pool))] for _ in range(n)]
             start = (ABSENT, 0, 1.5, True)[g.ch.draw(4)]
         elif mode == 2:  # lists with a list start: the start must not be mutated
@@ -728,7 +729,7 @@ class _Collect(AggBase):
 
     def gen(self, g):
         items = g.items()
-        if self.which == "set" and items and g.ch.chance(1, 10):
+        if self.which == "set" and items and g.cfg.odd_items and g.ch.chance(1, 10):
             items[g.ch.draw(len(items))] = [g.item()]  # unhashable
         return Spec(self.which, [g.src(items)], [], {})
 
@@ -759,9 +760,9 @@ class _Dict(AggBase):
     def gen(self, g):
         n = g.ch.draw(g.cfg.max_len + 1)
         pairs = [(g.item(), g.item()) for _ in range(n)]
-        if pairs and g.ch.chance(1, 10):
+        if pairs and g.cfg.odd_items and g.ch.chance(1, 10):
             pairs[g.ch.draw(n)] = ([g.item()], g.item())  # unhashable key
-        elif pairs and g.ch.chance(1, 10):
+        elif pairs and g.cfg.odd_items and g.ch.chance(1, 10):
             pairs[g.ch.draw(n)] = (g.item(), g.item(), g.item())  # not a pair
         kwargs = {}
         if g.ch.chance(1, 4):
